@@ -112,6 +112,9 @@ def task_gsearch(ctx, arg):
     stats, viols = search_groups.search(drv, ctx.seed, ctx.tier)
     PROP = {'add': ['C04', 'C16'], 'sub': ['C04', 'C16'], 'neg': ['C04', 'C16'], 'double': ['C04'], 'add_assign': ['C04'], 'eq': ['C15', 'C16'], 'to_affine': ['C15', 'C10'],
             'is_zero': ['C15'], 'mul': ['C05', 'C16'], 'affine_new': ['C09']}
+    PROP.update({'g1_add': ['C04'], 'g2_add': ['C04'], 'g1_sub': ['C04'], 'g2_sub': ['C04'], 'g1_neg': ['C04'], 'g2_neg': ['C04'],
+                 'g1_mul': ['C05'], 'g2_mul': ['C05'], 'g1_scalar*point': ['C05'], 'g2_scalar*point': ['C05'], 'g1_normalize': ['C15'], 'g2_normalize': ['C15'],
+                 'g1_is_zero': ['C15'], 'g2_is_zero': ['C15'], 'g1_eq': ['C15'], 'g2_eq': ['C15'], 'wrappers': ['C04', 'C05', 'C15'], 'g1_wrappers': ['C04', 'C05', 'C15'], 'g2_wrappers': ['C04', 'C05', 'C15']})
     violations = []
     seen = set()
     for v in viols:
@@ -136,6 +139,8 @@ def limb_props(fid):
         return ['C12', 'C14'] if 'sqrt' in fid else ['C12']
     if 'sqrt' in fid:
         return ['C14']
+    if f in ('bits', 'bits_without_leading_zeros'):
+        return ['C05', 'C06', 'C13']
     if fid.startswith('lib::') or fid.startswith('u512::') or f in ('new', 'new_mul_factor', 'from_slice', 'to_slice', 'interpret', 'from_str', 'from_hash',
                                                                      'to_big_endian', 'set_bit', 'get_bit', 'into_u256', 'bits', 'bits_without_leading_zeros'):
         return ['C13', 'C07']
